@@ -149,6 +149,18 @@ Proof.
   rewrite negb_true_iff in Ea |- *. split; [tauto|]. intros [H1 H2]. split; [split; [exact H1|]|exact H2].
   destruct (str_eqb n unit_name) eqn:En; [|reflexivity]. apply str_eqb_eq in En. subst n. congruence.
 Qed.
+(* -f together with --layer P: the names P accepts, never the unit-test layer — whatever P says about it *)
+Theorem non_unit_with_layer_patterns o present :
+  non_unit o = true -> unit o = false ->
+  forall n, In n (keep_layers search (post o) present) <->
+            (In n present /\ n <> unit_name /\ (layer_pats o = [] \/ accept search (layer_pats o) n = true)).
+Proof.
+  intros Hf Hu n. unfold keep_layers, post. simpl. rewrite Hu, Hf. simpl.
+  destruct (layer_pats o) as [|p ps] eqn:E.
+  - rewrite filter_In, negb_true_iff. rewrite <- not_true_iff_false, str_eqb_eq. tauto.
+  - rewrite !filter_In, negb_true_iff. rewrite <- not_true_iff_false, str_eqb_eq.
+    split; [intros [[H1 H2] H3]; auto|]. intros [H1 [H2 [H3|H3]]]; [discriminate | auto].
+Qed.
 End U.
 
 (* documented corner: the reserved name is used as a regex in search mode *)
